@@ -146,6 +146,8 @@ func (h264dp *h264Depacketizer) depacketizeFuA(packet *Packet) (err error) {
 
 	if (fuHeader>>7)&1 == 1 { // 第一个分片包
 		h264dp.fragments = h264dp.fragments[:0]
+	} else if len(h264dp.fragments) == 0 { // 起始分片丢失，丢弃后续分片
+		return
 	}
 	if len(h264dp.fragments) != 0 &&
 		h264dp.fragments[len(h264dp.fragments)-1].SequenceNumber != packet.SequenceNumber-1 {
